@@ -8,8 +8,9 @@
 (* look like the line delimiter.                                            *)
 EXTENDS Aio
 
-CONSTANTS Rcv,        \* the receiving party
-          Prog,       \* Prog[a]: sequence of [vs |-> <<values>>, arr |-> BOOLEAN] sent by a to Rcv (<<>>: silent)
+CONSTANTS CN, CAuth, CEnc, CChunked, CVariant, CMACLEN, CBLK, CBUFSZ,   \* the configuration (w.cfg)
+          Rcv,        \* the receiving party
+          Prog,       \* Prog[a + 1]: sequence of [vs |-> <<values>>, arr |-> BOOLEAN] sent by a to Rcv (<<>>: silent)
           MaxFault,   \* rewrites of the wire in one behaviour
           Kinds,      \* subset of {"flip","ins","del","delmsg","replay","swap","forge"}
           Scheds,     \* schedulers the receiver uses
@@ -36,11 +37,13 @@ SendOne(W, a, v) ==
 RECURSIVE SendAll(_, _, _)
 SendAll(W, a, vs) == IF vs = <<>> THEN W ELSE SendAll(SendOne(W, a, Head(vs)), a, Tail(vs))
 
-MCInit == w = W0 /\ pc = [a \in Party |-> 1]
+MCCfg == MkCfg(CN, CVariant, CAuth, CEnc, CChunked, CMACLEN, CBLK, CBUFSZ)
+ProgOf(a) == IF a + 1 <= Len(Prog) THEN Prog[a + 1] ELSE <<>>
+MCInit == w = WInit(MCCfg) /\ pc = [a \in 0..(CN - 1) |-> 1]
 
 MCSend(a) ==
-  /\ pc[a] <= Len(Prog[a])
-  /\ LET it == Prog[a][pc[a]]
+  /\ pc[a] <= Len(ProgOf(a))
+  /\ LET it == ProgOf(a)[pc[a]]
          W1 == SendAll(w, a, IF it.arr THEN ArrayValues(it.vs) ELSE it.vs)
      IN w' = IF it.arr THEN [W1 EXCEPT !.sarrs[a][Rcv] = Append(@, it.vs)] ELSE W1
   /\ pc' = [pc EXCEPT ![a] = @ + 1]
@@ -107,7 +110,7 @@ MCNext ==
   \/ \E a \in Party : \E k \in 1..Len(w.wire[a][Rcv]) : MCMove(a, k)
   \/ \E a \in Party : \E sp \in Splices(w, a) : MCFault(a, sp)
   \/ (RR \in Scheds /\ (MCRecv(RR, 0, NoPicks) \/ MCRecvArr(RR, 0, NoPicks)))
-  \/ (DIRECT \in Scheds /\ \E who \in Party : Prog[who] # <<>> /\ (MCRecv(DIRECT, who, NoPicks) \/ MCRecvArr(DIRECT, who, NoPicks)))
+  \/ (DIRECT \in Scheds /\ \E who \in Party : ProgOf(who) # <<>> /\ (MCRecv(DIRECT, who, NoPicks) \/ MCRecvArr(DIRECT, who, NoPicks)))
   \/ (RND \in Scheds /\ \E picks \in [1..N -> Party] : MCRecv(RND, 0, picks))
   \/ (RND \in Scheds /\ \E picks \in [1..(N + 1) -> Party] : MCRecvArr(RND, 0, picks))
 
@@ -115,9 +118,10 @@ MCSpec == MCInit /\ [][MCNext]_mcvars
 
 --------------------------------------------------------------------------
 InOrderI == InOrder(w)
-CompleteI == (\A a \in Party : pc[a] > Len(Prog[a])) => Complete(w)
 CompleteAlways == Complete(w)
 AuthSafeI == AuthSafe(w)
+\* the strict reading (used by MC_Aio_strictiv.cfg only): no allowance for the unauthenticated IV
+AuthPrefixStrict == Auth => \A a \in Party : IsPrefix(w.deliv[Rcv][a], SentV(w, a, Rcv))
 ArraysWholeI == ArraysWhole(w)
 \* nothing that was not sent is ever returned, in any mode the catalogue is applied to
 NothingForged == \A a \in Party : \A k \in 1..Len(w.deliv[Rcv][a]) :
